@@ -250,9 +250,105 @@ def check_sequences(ctx):
     ctx.add('sequences', ev, nt)
 
 
+def check_inputs(ctx):
+    """Argument containers and extreme compositions: integer-valued partial pressures in every container type, arguments left
+    untouched, reverse IAST for trace components (the requested composition is what is solved for)."""
+    import pygaps.iast as pgi
+    scale = ctx.scale
+    ev = nt = nr = 0
+    out = {'untrusted_ref': 0, 'worst_sp': 0.0, 'worst_mix': 0.0}
+
+    def report(check, what, exp=None, obs=None, extra=None):
+        sig = {'check': check}
+        if extra:
+            sig.update(extra)
+        ctx.violate(core.make_violation(sig, what, {}, exp, obs))
+
+    for keys, ipp in ((('L1', 'L2'), [1, 2]), (('L1', 'T'), (2, 5)), (('L1', 'L2', 'T'), [1, 2, 3]), (('pL', 'pT'), [1, 3]), (('H1', 'DS', 'L3'), [3, 1, 2])):
+        isos = [iso(k, scale) for k in keys]
+        ref = core.call(pgi.iast_point, isos, [float(v) for v in ipp], warningoff=True, timeout=60)
+        if not ref.ok:
+            nr += 1
+            continue
+        for kind, arg in (('list[int]', [int(v) for v in ipp]), ('tuple[int]', tuple(int(v) for v in ipp)), ('ndarray[int64]', numpy.array(ipp, dtype='int64')),
+                          ('ndarray[int32]', numpy.array(ipp, dtype='int32')), ('ndarray[float64]', numpy.array(ipp, dtype=float)),
+                          ('ndarray[float32]', numpy.array(ipp, dtype='float32')), ('tuple[float]', tuple(float(v) for v in ipp))):
+            keep = numpy.array(arg).copy() if isinstance(arg, numpy.ndarray) else type(arg)(arg)
+            o = core.call(pgi.iast_point, isos, arg, warningoff=True, timeout=60)
+            ev += 1
+            if not o.ok:
+                report('input-container', f'iast_point({list(keys)}, {kind} {arg!r}) {o.brief()} although the same pressures as a list of floats return', ref.value, o.brief(),
+                       {'container': kind})
+                continue
+            nt += 1
+            if core.relerr(o.value, ref.value) > 1e-7:
+                report('input-container', f'iast_point({list(keys)}, {kind} {arg!r}) = {o.value} but the same pressures as a list of floats give {ref.value}', ref.value, o.value,
+                       {'container': kind})
+            judge(list(keys), [float(v) for v in ipp], o.value, scale, out, lambda c, w, e=None, ob=None, x=None: report(c, w, e, ob, dict(x or {}, container=kind)),
+                  f'iast_point({list(keys)}, {kind})')
+            if not numpy.array_equal(numpy.asarray(arg), numpy.asarray(keep)):
+                report('argument-mutated', f'iast_point changed its partial_pressures argument ({kind}) from {keep} to {arg}', keep, arg, {'argument': 'partial_pressures'})
+        # user guess passed as an array must not be modified
+        x = numpy.asarray(ref.value, dtype=float) / numpy.sum(ref.value)
+        g = numpy.array(x)
+        g0 = g.copy()
+        o = core.call(pgi.iast_point, isos, [float(v) for v in ipp], adsorbed_mole_fraction_guess=g, warningoff=True, timeout=60)
+        ev += 1
+        if o.ok:
+            nt += 1
+            if not numpy.array_equal(g, g0):
+                report('argument-mutated', f'iast_point changed the adsorbed_mole_fraction_guess array from {g0} to {g}', g0, g, {'argument': 'adsorbed_mole_fraction_guess'})
+    # reverse IAST: requested adsorbed composition incl. trace components, default and user guess
+    for keys in (('L1', 'L2'), ('L1', 'T'), ('L2', 'DS'), ('pL', 'pT'), ('L1', 'L2', 'T')):
+        isos = [iso(k, scale) for k in keys]
+        n = len(keys)
+        comps = []
+        for tr in (0.2, 1e-2, 1e-3, 3e-5):     # below ~1e-5 the solver tolerance on the gas fractions exceeds the 1e-6 judged on the spreading pressures
+            for pos in range(n):
+                xs = [(1.0 - tr) / (n - 1)] * n
+                xs[pos] = tr
+                xs[-1 if pos != n - 1 else 0] += 1.0 - sum(xs)
+                comps.append(xs)
+        for xs in comps:
+            for totp in (0.5, 2.0):
+                for guess in ('default', 'array'):
+                    xa = numpy.array(xs, dtype=float)
+                    x0 = xa.copy()
+                    kw = {}
+                    if guess == 'array':
+                        kw['gas_mole_fraction_guess'] = numpy.full(n, 1.0 / n)
+                    o = core.call(pgi.reverse_iast, isos, xa, totp, warningoff=True, timeout=60, **kw)
+                    ev += 1
+                    if not numpy.array_equal(xa, x0):
+                        report('argument-mutated', f'reverse_iast({list(keys)}, x={x0}, P={totp}) changed its adsorbed_mole_fractions argument to {xa}', x0, xa,
+                               {'argument': 'adsorbed_mole_fractions'})
+                    if not o.ok:
+                        nr += 1
+                        continue
+                    nt += 1
+                    gy, gl = o.value
+                    gl = numpy.asarray(gl, dtype=float)
+                    xr = gl / gl.sum()
+                    rel = numpy.max(numpy.abs(xr - x0) / x0)
+                    if rel > 1e-4:
+                        report('reverse-requested-composition', f'reverse_iast({list(keys)}, x={list(x0)}, P={totp}, guess={guess}) returns loadings with composition {list(xr)} '
+                               f'(relative deviation {rel:.3g} from the requested one)', list(x0), list(xr), {'guess': guess})
+                        continue
+                    # forward problem at the returned gas composition reproduces it
+                    pp = [float(v) * totp for v in gy]
+                    judge(list(keys), pp, gl, scale, out, lambda c, w, e=None, ob=None, x=None: report(c, w, e, ob, dict(x or {}, via='reverse_iast')),
+                          f'reverse_iast({list(keys)}, x={list(x0)}, P={totp})')
+    ctx.add('inputs_and_trace_compositions', ev, nt, did_not_return=nr)
+    ctx.track('spreading_pressure_spread_trace_compositions', out['worst_sp'], 1e-6)
+    ctx.track('ideal_mixing_trace_compositions', out['worst_mix'], 1e-6)
+    if nt < 0.5 * ev:
+        raise core.HarnessError(f'vacuous: only {nt} of {ev} calls of the input/trace part returned')
+
+
 def run(ctx):
     scale = ctx.scale
     check_sequences(ctx)
+    check_inputs(ctx)
     keys = list(POOL) + list(POINT_POOL)
     jobs = []
     pairs = list(itertools.combinations(keys, 2))
